@@ -156,12 +156,14 @@ package simpledb
 // Compaction cycle (C06, C02, C11, C01).
 
 //@ func saveCompactionMetadata
-//@   props C02 C11
+//@   props C02 C11 C19
 //@   exit [close-error-reported] called(WriterI.Close, 0) && callres(WriterI.Close, 0, 0) != nil ==> err != nil
 //@   exit [write-error-reported] called(WriterI.Write, 0) && callres(WriterI.Write, 0, 1) != nil ==> err != nil
+//@   exit [C19:flag-file-closed] called(WriterI.Open, 0) && callres(WriterI.Open, 0, 0) == nil ==> called(WriterI.Close, 0)
+//@   modifies pwCount(*), pwClosed(*)
 
 //@ func executeCompaction
-//@   props C06 C02 C11 C01
+//@   props C06 C02 C11 C01 C19
 //@   bounded compaction_cycle reads unchanged by a compaction cycle and after restart: 5 fixed table lineages
 //@   replay compaction_cycle
 //@   requires db.sstableManager != nil && db.sstableManager.managerLock != nil
@@ -176,7 +178,16 @@ package simpledb
 //@   call 0 of saveCompactionMetadata: assert [C02,C11:output-closed-before-flag] called(SSTableStreamWriter.Close, 1) && callres(SSTableStreamWriter.Close, 1, 0) == nil
 //@   call 0 of MergeCompact: assert [C06:tombstones-dropped-only-with-oldest-table] arg2 == fn(sstables.ScanReduceLatestWins) ||
 //@        (arg2 == fn(sstables.ScanReduceLatestWinsSkipTombstones) && compactionAction.includesOldestTable)
+//@   call 0 of SSTableReaderI.Scan: assert [C19:opened-reader-registered-before-it-is-used] len(readers) > 0 && readers[len(readers) - 1] == recv
+//@   exit [C19:every-registered-reader-closed] called(SSTableStreamWriter.Open, 0) && callres(SSTableStreamWriter.Open, 0, 0) == nil ==>
+//@        forall j :: 0 <= j && j < len(readers) ==> rclosed(readers[j]) >= 1
+//@   exit [C19:output-writer-closed] called(SSTableStreamWriter.Open, 0) && callres(SSTableStreamWriter.Open, 0, 0) == nil ==>
+//@        called(SSTableStreamWriter.Close, 0) || called(SSTableStreamWriter.Close, 1)
+//@   loop 0
+//@     invariant [C19:registered-readers-are-open-tables] forall j :: 0 <= j && j < len(readers) ==> readers[j] != nil && rclosed(readers[j]) >= 0
 //@   loop executeCompaction$2:0
+//@     invariant [C19:closed-so-far] forall j :: 0 <= j && j < iter && j < len(readers) ==> rclosed(readers[j]) >= 1
+//@     invariant [C19:still-tables] forall j :: 0 <= j && j < len(readers) ==> readers[j] != nil && rclosed(readers[j]) >= 0
 //@     invariant [merge-error-kept] called(MergeCompact, 0) && callres(MergeCompact, 0, 0) != nil ==> err != nil
 //@     invariant [close-error-kept] called(SSTableStreamWriter.Close, 1) && callres(SSTableStreamWriter.Close, 1, 0) != nil ==> err != nil
 //@     invariant [result-kept] compactionMetadata == nil || (called(saveCompactionMetadata, 0) && callres(saveCompactionMetadata, 0, 0) == nil)
